@@ -84,7 +84,11 @@ def oracle(chk, case, impl):
 
 
 def run(chk):
-    chk.prove("Properties_C13")
+    chk.prove("Properties_C13", extra_modules=("Properties_C13b",))
+    # connection level: every send overload refuses a split response and writes nothing
+    import simcheck
+    simcheck.run_sim(chk, only=lambda h: h["name"].startswith("split headers refused") or h["name"] == "sequential")
+    sim_cov = dict(chk.cov.get("correspondence", {}))
     cases = gen_cases(chk)
     pairs, diffs = chk.correspond("h_pure", cases)
     for c, m, i in pairs:
@@ -95,7 +99,10 @@ def run(chk):
             chk.count_distinct(c)
     for c, m, i in diffs[:50]:
         chk.broken.append("correspondence h_pure: case `%s` model=%s impl=%s" % (c, m[:120], i[:120]))
-    chk.cov["rule"] = ("all strings of length <= 7 (8 thorough) over {CR,LF,'a',':'} through are_headers_split; all of length <= 5 (7) through "
+    chk.cov.setdefault("correspondence", {}).update(sim_cov)
+    chk.cov["rule"] = ("connection level: histories in which the application answers with a header string containing an empty line, through send(response), "
+                       "send(response, body), send(response, buffers) and the chunked path, on the real http_server over the simulated socket: send() must return false and nothing may be written; "
+                       "encoder level: all strings of length <= 7 (8 thorough) over {CR,LF,'a',':'} through are_headers_split; all of length <= 5 (7) through "
                        "tx_response(code, header_string).message() for a body-permitting and a bodiless status; random header blocks over all "
                        "256 byte values with mixed terminators through the (reason,status,headers) constructor and add_header; "
                        "non-trivial = the header input contains at least one LF; distinct = distinct case lines")
